@@ -1,5 +1,28 @@
-"""Failpoints: exceptions injected by the harness at a chosen call index."""
+"""Failpoints: exceptions injected by the harness at a chosen call index.
+
+Inner steps fail in different ways (a numerical error, an out-of-memory condition in a factorisation, an I/O error of
+an out-of-core back-end, a lookup error); the injected failure rotates over these kinds. All class names start with
+``InjectedFault`` so that the observer of swallowed exceptions recognises them."""
 
 
 class InjectedFault(RuntimeError):
     pass
+
+
+class InjectedFaultMemory(MemoryError):
+    pass
+
+
+class InjectedFaultOS(OSError):
+    pass
+
+
+class InjectedFaultLookup(KeyError):
+    pass
+
+
+KINDS = (InjectedFault, InjectedFaultMemory, InjectedFaultOS, InjectedFaultLookup)
+
+
+def kind(i: int):
+    return KINDS[i % len(KINDS)]
